@@ -74,6 +74,63 @@ def _scale_mantissa(abs_n: float, exp: int) -> float:
     return abs_n / divisor
 
 
+def expand_replacement(
+    template: str, matched: str, position: int, subject: str, groups: List[Any]
+) -> str:
+    """ECMAScript GetSubstitution: the text a replace() template stands for.
+
+    $$ is a dollar, $& the match, $` and $' the text before and after it, $n
+    and $nn the captures that exist (an unmatched one is empty); a reference
+    to a capture the pattern does not have, and any other $, is copied as it
+    is. The template is read once, left to right: substituted text is never
+    read again.
+    """
+    if "$" not in template:
+        return template
+    out = []
+    i = 0
+    n = len(template)
+    m = len(groups)
+    while i < n:
+        ch = template[i]
+        if ch != "$" or i + 1 >= n:
+            out.append(ch)
+            i += 1
+            continue
+        nxt = template[i + 1]
+        if nxt == "$":
+            out.append("$")
+            i += 2
+        elif nxt == "&":
+            out.append(matched)
+            i += 2
+        elif nxt == "`":
+            out.append(subject[:position])
+            i += 2
+        elif nxt == "'":
+            out.append(subject[position + len(matched) :])
+            i += 2
+        elif nxt in "0123456789":
+            number = ord(nxt) - 48
+            width = 1
+            if i + 2 < n and template[i + 2] in "0123456789":
+                two_digits = number * 10 + ord(template[i + 2]) - 48
+                if 1 <= two_digits <= m:
+                    number = two_digits
+                    width = 2
+            if 1 <= number <= m:
+                group = groups[number - 1]
+                out.append(group if group is not None else "")
+                i += 1 + width
+            else:
+                out.append("$")
+                i += 1
+        else:
+            out.append("$")
+            i += 1
+    return "".join(out)
+
+
 class _PendingThrow(Exception):
     """A script exception on its way to a handler that lives below a native call.
 
@@ -2210,22 +2267,15 @@ class VM:
                     is_global = "g" in pattern._flags
                     capture_count = regex_internal._capture_count
 
-                    # Handle special replacement patterns
                     def handle_replacement(match_result):
-                        result = replacement
-                        # Handle $$ escape first (must be done before other $ patterns)
-                        result = result.replace("$$", "\x00DOLLAR\x00")
-                        # $& - the matched substring
-                        result = result.replace("$&", match_result[0] or "")
-                        # $n - nth captured group
-                        for i in range(1, 10):
-                            if i <= capture_count:
-                                result = result.replace(f"${i}", match_result[i] or "")
-                            else:
-                                result = result.replace(f"${i}", "")
-                        # Restore escaped dollars
-                        result = result.replace("\x00DOLLAR\x00", "$")
-                        return result
+                        groups = [match_result[i] for i in range(1, capture_count)]
+                        return expand_replacement(
+                            replacement,
+                            match_result[0] or "",
+                            match_result.index,
+                            s,
+                            groups,
+                        )
 
                     result_parts = []
                     last_end = 0
@@ -2261,16 +2311,10 @@ class VM:
             else:
                 # String replace - only replace first occurrence
                 search = to_string(pattern)
-                # Handle special replacement patterns
-                repl = replacement
-                if "$$" in repl:
-                    repl = repl.replace("$$", "\x00DOLLAR\x00")
-                if "$&" in repl:
-                    repl = repl.replace("$&", search)
-                repl = repl.replace("\x00DOLLAR\x00", "$")
                 # Find first occurrence and replace
                 idx = s.find(search)
                 if idx >= 0:
+                    repl = expand_replacement(replacement, search, idx, s, [])
                     return s[:idx] + repl + s[idx + len(search) :]
                 return s
 
@@ -2286,15 +2330,20 @@ class VM:
             else:
                 # String replaceAll - replace all occurrences
                 search = to_string(pattern)
-                # Handle special replacement patterns
-                if "$$" in replacement:
-                    # $$ -> $ (must be done before other replacements)
-                    replacement = replacement.replace("$$", "\x00DOLLAR\x00")
-                if "$&" in replacement:
-                    # $& -> the matched substring
-                    replacement = replacement.replace("$&", search)
-                replacement = replacement.replace("\x00DOLLAR\x00", "$")
-                return s.replace(search, replacement)
+                # Every occurrence, left to right; an empty search string
+                # matches before each character and at the end
+                parts = []
+                last_end = 0
+                idx = s.find(search)
+                while idx >= 0:
+                    parts.append(s[last_end:idx])
+                    parts.append(expand_replacement(replacement, search, idx, s, []))
+                    last_end = idx + len(search)
+                    if idx >= len(s):
+                        break
+                    idx = s.find(search, last_end if search else idx + 1)
+                parts.append(s[last_end:])
+                return "".join(parts)
 
         def match(*args):
             pattern = args[0] if args else UNDEFINED
